@@ -850,8 +850,16 @@ func (c *VCtx) mergeVals(guards []*Term, vals []Val) Val {
 			for i := len(vals) - 2; i >= 0; i-- {
 				pt = fmt.Sprintf("(ite %s (select %s k) %s)", guards[i].S, c.asTerm(vals[i]).S, pt)
 			}
-			_ = vs
 			c.defFact(n, T(SBool, fmt.Sprintf("(forall ((k %s)) (! (= (select %s k) %s) :pattern ((select %s k))))", ks, n.S, pt, n.S)))
+			if strings.HasPrefix(string(vs), "(Array ") {
+				// heaps of maps / slices: also read pointwise one level down
+				js, _ := arrParts(vs)
+				pt2 := fmt.Sprintf("(select (select %s k) j)", c.asTerm(vals[len(vals)-1]).S)
+				for i := len(vals) - 2; i >= 0; i-- {
+					pt2 = fmt.Sprintf("(ite %s (select (select %s k) j) %s)", guards[i].S, c.asTerm(vals[i]).S, pt2)
+				}
+				c.defFact(n, T(SBool, fmt.Sprintf("(forall ((k %s) (j %s)) (! (= (select (select %s k) j) %s) :pattern ((select (select %s k) j))))", ks, js, n.S, pt2, n.S)))
+			}
 		}
 		return n
 	case Tuple:
